@@ -16,9 +16,10 @@ SPEC = {
         "module": "LV.Channel.Props_C01",
         "targets": ["theories/Channel/Props_C01.vo", "theories/Channel/Exec.vo",
                     "theories/Channel/Examples.vo"],
-        "theorems": ["C01_conservation", "C01_conservation_inflight", "C01_balance_formula",
-                     "C01_agreement", "C01_mirror_at_quiescence", "C01_window",
-                     "C01_wf_reachable"],
+        "theorems": ["C01_conservation", "C01_conservation_inflight", "C01_conservation_cut",
+                     "C01_balance_formula", "C01_agreement", "C01_mirror_at_quiescence",
+                     "C01_window", "C01_wf_reachable", "C01_wf_only_money",
+                     "C01_sign_refusal_is_money"],
         "env": {"VERIF_CRASH": "0", "VERIF_CUT": "0"},
         "predicates": ["conservation", "mirror", "agreement",
                        "balance_moves_only_by_htlc", "window", "no_errors",
@@ -29,7 +30,8 @@ SPEC = {
         "module": "LV.Channel.Props_C02",
         "targets": ["theories/Channel/Props_C02.vo", "theories/Channel/Exec.vo"],
         "theorems": ["C02_restore_idempotent", "C02_restore_keeps_signed",
-                     "C02_no_revoked_broadcast"],
+                     "C02_revoke_advances_tail", "C02_tail_height_monotone",
+                     "C02_restore_keeps_tail"],
         "env": {"VERIF_CRASH": "1", "VERIF_CUT": "1"},
         "predicates": ["reload_consistent", "release_rule", "no_errors", "conservation",
                        "agreement"],
@@ -37,8 +39,11 @@ SPEC = {
     },
     "C03": {
         "module": "LV.Channel.Props_C03",
-        "targets": ["theories/Channel/Props_C03.vo", "theories/Channel/Exec.vo"],
-        "theorems": ["C03_resync_inv", "C03_no_sync_error", "C03_free_rev_refuted"],
+        "targets": ["theories/Channel/Props_C03.vo", "theories/Channel/Exec.vo",
+                    "theories/Channel/ResyncExamples.vo"],
+        "theorems": ["C03_no_sync_error", "C03_no_sync_error_free", "C03_xinv_reachable",
+                     "C03_resync_xinv", "C03_resync_inv", "C03_agreement_after_resync",
+                     "C03_cut_refusal_is_money", "C03_free_rev_refuted"],
         "env": {"VERIF_CRASH": "0", "VERIF_CUT": "1"},
         "predicates": ["no_errors", "agreement", "mirror", "conservation",
                        "release_rule", "drained", "logs_ordered"],
